@@ -339,12 +339,31 @@ Definition read_file (allow : bool) (doc : str) : doc_result :=
 (** * The tokeniser after the repairs token-end-before-dot and closing-quote-scan
     (notes/proposed_fixes/C06-*.diff).  [Gen.Consts.nt_fixed_tok] says which of
     the two texts /repo has; the [_cur] functions at the end follow it.  Both
-    models are kept so that the theorems about either stay checked. *)
+    models are kept so that the theorems about either stay checked.
 
-(** [_index_of_token_end], repaired: a dot right before the first blank closes
+    The repaired tokeniser itself has two texts, told apart by two independent
+    switches (notes/proposed_fixes/C06-comment-glued-to-dot.diff, finding C06-F7r):
+    [hs] ([Gen.Consts.nt_tok_end_at_hash]): [_index_of_token_end] ends a token at
+    '#' as well as at a blank;  [el] ([Gen.Consts.nt_uri_unclosed_to_eol]):
+    [_look_for_last_index_of_uri_token] answers the end of the line when there is
+    no closing corner.  The [_g] functions take the switches; the [_fx] names are
+    the instances [false false] (the text without that repair). *)
+
+(** the characters at which [_index_of_token_end] ends a token: [" \t"], or [" \t#"] *)
+Definition is_stop (hs : bool) (c : ascii) : bool :=
+  is_blank c || (hs && Ascii.eqb c (ch nt_tok_end_extra)).
+
+Fixpoint first_stop (hs : bool) (s : str) : option nat :=
+  match s with
+  | [] => None
+  | c :: s' => if is_stop hs c then Some O
+               else match first_stop hs s' with Some n => Some (S n) | None => None end
+  end.
+
+(** [_index_of_token_end], repaired: a dot right before the first blank (or '#') closes
     the statement and is not part of the token *)
-Definition index_of_token_end_fx (s : str) : Z :=
-  match first_blank s with
+Definition index_of_token_end_g (hs : bool) (s : str) : Z :=
+  match first_stop hs s with
   | Some n =>
     if (0 <? Z.of_nat n) &&
        match at_idx s (Z.of_nat n - 1) with Some c => Ascii.eqb c (ch nt_statement_end) | None => false end
@@ -352,13 +371,20 @@ Definition index_of_token_end_fx (s : str) : Z :=
   | None => if suffixb nt_statement_end s then len s - 1 else len s
   end.
 
-Definition last_index_bnode_fx (t : str) (i : Z) : Z :=
+(** [_look_for_last_index_of_uri_token]; with [el]:
+    [if index_sub < 0: return len(target_str) - 1] *)
+Definition last_index_uri_g (el : bool) (t : str) (i : Z) : Z :=
   let sub := slice_from t i in
-  index_of_token_end_fx sub + (len t - len sub) - 1.
+  let index_sub := find s_gt sub in
+  if el && (index_sub <? 0) then len t - 1 else index_sub + (len t - len sub).
 
-Definition last_index_number_fx (t : str) (i : Z) : Z :=
+Definition last_index_bnode_g (hs : bool) (t : str) (i : Z) : Z :=
   let sub := slice_from t i in
-  index_of_token_end_fx sub + (len t - len sub) - 1.
+  index_of_token_end_g hs sub + (len t - len sub) - 1.
+
+Definition last_index_number_g (hs : bool) (t : str) (i : Z) : Z :=
+  let sub := slice_from t i in
+  index_of_token_end_g hs sub + (len t - len sub) - 1.
 
 (** the scan for the closing quote: [index_of_quotes += 2 if t[q] == "\\" else 1]
     (the character after a backslash is skipped whatever it is; [cp_advance]
@@ -396,17 +422,17 @@ Fixpoint tag_loop (fuel : nat) (rest : str) (k : Z) : res Z :=
          end
   end.
 
-Definition last_index_literal_fx (t : str) (i : Z) : res Z :=
+Definition last_index_literal_g (hs : bool) (t : str) (i : Z) : res Z :=
   bind (scan_quote (List.length t + 2) t (i + 1)) (fun q =>
     if len t <=? q then Ok (len t - 1)
     else
       let rest := slice_from t (q + 1) in
       if prefixb ntf_type_open rest && contains ntf_type_close rest then Ok (q + 1 + find ntf_type_close rest)
       else if prefixb ntf_lang_char rest then bind (tag_loop (List.length rest + 2) rest 1) (fun k => Ok (q + k))
-      else if prefixb ntf_type_marker rest then Ok (q + index_of_token_end_fx rest)
+      else if prefixb ntf_type_marker rest then Ok (q + index_of_token_end_g hs rest)
       else Ok q).
 
-Fixpoint look_loop_fx (fuel : nat) (line : str) (i : Z) (acc : list str) : res (list str) :=
+Fixpoint look_loop_g (hs el : bool) (fuel : nat) (line : str) (i : Z) (acc : list str) : res (list str) :=
   match fuel with
   | O => Hang
   | S f =>
@@ -415,27 +441,27 @@ Fixpoint look_loop_fx (fuel : nat) (line : str) (i : Z) (acc : list str) : res (
          | None => Raise EIndex
          | Some c =>
            if Ascii.eqb c ch_uri then
-             let last := last_index_uri line i in
-             look_loop_fx f line (last + 1) (slice line i (last + 1) :: acc)
+             let last := last_index_uri_g el line i in
+             look_loop_g hs el f line (last + 1) (slice line i (last + 1) :: acc)
            else if Ascii.eqb c ch_lit then
-             match last_index_literal_fx line i with
-             | Ok last => look_loop_fx f line (last + 1) (slice line i (last + 1) :: acc)
+             match last_index_literal_g hs line i with
+             | Ok last => look_loop_g hs el f line (last + 1) (slice line i (last + 1) :: acc)
              | Raise e => Raise e
              | Hang => Hang
              end
            else if Ascii.eqb c ch_bnode then
-             let last := last_index_bnode_fx line i in
-             look_loop_fx f line (last + 1) (slice line i (last + 1) :: acc)
+             let last := last_index_bnode_g hs line i in
+             look_loop_g hs el f line (last + 1) (slice line i (last + 1) :: acc)
            else if Ascii.eqb c ch_dot then Ok (rev acc)
            else if is_ascii_digit c then
-             let last := last_index_number_fx line i in
-             look_loop_fx f line (last + 1) (slice line i (last + 1) :: acc)
-           else look_loop_fx f line (i + 1) acc
+             let last := last_index_number_g hs line i in
+             look_loop_g hs el f line (last + 1) (slice line i (last + 1) :: acc)
+           else look_loop_g hs el f line (i + 1) acc
          end
   end.
 
-Definition look_for_tokens_fx (line : str) : res (list str) :=
-  look_loop_fx (line_fuel line) line 0 [].
+Definition look_for_tokens_g (hs el : bool) (line : str) : res (list str) :=
+  look_loop_g hs el (line_fuel line) line 0 [].
 
 Definition tokens_result (allow : bool) (r : res (list str)) : line_result :=
   match r with
@@ -457,8 +483,8 @@ Definition tokens_result (allow : bool) (r : res (list str)) : line_result :=
   | Ok _ => LError
   end.
 
-Definition process_line_fx (allow : bool) (raw_line : str) : line_result :=
-  tokens_result allow (look_for_tokens_fx (strip raw_line)).
+Definition process_line_g (hs el : bool) (allow : bool) (raw_line : str) : line_result :=
+  tokens_result allow (look_for_tokens_g hs el (strip raw_line)).
 
 Fixpoint run_lines_g (pl : str -> line_result) (lines : list str) (acc : list (term * str * term)) (errs : nat) : doc_result :=
   match lines with
@@ -472,11 +498,17 @@ Fixpoint run_lines_g (pl : str -> line_result) (lines : list str) (acc : list (t
     end
   end.
 
-Definition read_raw_string_fx (allow : bool) (doc : str) : doc_result :=
-  run_lines_g (process_line_fx allow) (raw_string_lines doc) [] 0.
+Definition read_raw_string_g (hs el : bool) (allow : bool) (doc : str) : doc_result :=
+  run_lines_g (process_line_g hs el allow) (raw_string_lines doc) [] 0.
 
-Definition read_file_fx (allow : bool) (doc : str) : doc_result :=
-  run_lines_g (process_line_fx allow) (file_lines doc) [] 0.
+Definition read_file_g (hs el : bool) (allow : bool) (doc : str) : doc_result :=
+  run_lines_g (process_line_g hs el allow) (file_lines doc) [] 0.
+
+(** the text without comment-glued-to-dot *)
+Definition look_for_tokens_fx : str -> res (list str) := look_for_tokens_g false false.
+Definition process_line_fx : bool -> str -> line_result := process_line_g false false.
+Definition read_raw_string_fx : bool -> str -> doc_result := read_raw_string_g false false.
+Definition read_file_fx : bool -> str -> doc_result := read_file_g false false.
 
 (** * [decide_literal_type] after the repair literal-type-from-suffix
     ([Gen.Consts.nt_fixed_dlt]): the kind of the literal is read after its last quote *)
@@ -540,24 +572,38 @@ Definition tokens_result_fx (allow : bool) (r : res (list str)) : line_result :=
   end.
 
 (** tokeniser repairs + typing repair *)
-Definition process_line_fx2 (allow : bool) (raw_line : str) : line_result :=
-  tokens_result_fx allow (look_for_tokens_fx (strip raw_line)).
+Definition process_line_g2 (hs el : bool) (allow : bool) (raw_line : str) : line_result :=
+  tokens_result_fx allow (look_for_tokens_g hs el (strip raw_line)).
 
-Definition read_raw_string_fx2 (allow : bool) (doc : str) : doc_result :=
-  run_lines_g (process_line_fx2 allow) (raw_string_lines doc) [] 0.
+Definition read_raw_string_g2 (hs el : bool) (allow : bool) (doc : str) : doc_result :=
+  run_lines_g (process_line_g2 hs el allow) (raw_string_lines doc) [] 0.
 
-Definition read_file_fx2 (allow : bool) (doc : str) : doc_result :=
-  run_lines_g (process_line_fx2 allow) (file_lines doc) [] 0.
+Definition read_file_g2 (hs el : bool) (allow : bool) (doc : str) : doc_result :=
+  run_lines_g (process_line_g2 hs el allow) (file_lines doc) [] 0.
 
-(** ** the reader /repo has now *)
+(** ... without comment-glued-to-dot *)
+Definition process_line_fx2 : bool -> str -> line_result := process_line_g2 false false.
+Definition read_raw_string_fx2 : bool -> str -> doc_result := read_raw_string_g2 false false.
+Definition read_file_fx2 : bool -> str -> doc_result := read_file_g2 false false.
+
+(** ... with it: every repair proposed for the reader *)
+Definition process_line_fx3 : bool -> str -> line_result := process_line_g2 true true.
+Definition read_raw_string_fx3 : bool -> str -> doc_result := read_raw_string_g2 true true.
+Definition read_file_fx3 : bool -> str -> doc_result := read_file_g2 true true.
+
+(** ** the reader /repo has now ([tools/gen_consts.py] accepts the switches of
+    comment-glued-to-dot only on top of the tokeniser repairs and the typing repair) *)
 Definition read_raw_string_cur (allow : bool) (doc : str) : doc_result :=
-  if nt_fixed_tok then (if nt_fixed_dlt then read_raw_string_fx2 allow doc else read_raw_string_fx allow doc)
+  if nt_fixed_tok then (if nt_fixed_dlt then read_raw_string_g2 nt_tok_end_at_hash nt_uri_unclosed_to_eol allow doc
+                        else read_raw_string_fx allow doc)
   else read_raw_string allow doc.
 
 Definition read_file_cur (allow : bool) (doc : str) : doc_result :=
-  if nt_fixed_tok then (if nt_fixed_dlt then read_file_fx2 allow doc else read_file_fx allow doc)
+  if nt_fixed_tok then (if nt_fixed_dlt then read_file_g2 nt_tok_end_at_hash nt_uri_unclosed_to_eol allow doc
+                        else read_file_fx allow doc)
   else read_file allow doc.
 
 Definition process_line_cur (allow : bool) (line : str) : line_result :=
-  if nt_fixed_tok then (if nt_fixed_dlt then process_line_fx2 allow line else process_line_fx allow line)
+  if nt_fixed_tok then (if nt_fixed_dlt then process_line_g2 nt_tok_end_at_hash nt_uri_unclosed_to_eol allow line
+                        else process_line_fx allow line)
   else process_line allow line.
